@@ -21,6 +21,10 @@
 // the handler of a single event stream appear at most once in a scenario
 // (roleDef.max = 1), constructor-only paths run before the roles start.
 //
+// TestScenarios searches every service but the controller, TestControllerScenarios
+// the controller world (a process of its own, see there); C17_ONLY=<svc>[,<svc>]
+// restricts the search while developing.
+//
 // Doubles are stateless or immutable while roles run (no mutex, no shared
 // counters) so that they do not add happens-before edges that would hide a race
 // from the detector; where production has a lock of its own (the scheduler)
